@@ -413,6 +413,8 @@ def run(ctx: Context):
                 if not is_return(n):
                     return False
                 v = n.ast.value
+                if v is not None:
+                    v = _fn.resolve(n, v)
                 if v is None or (isinstance(v, ast.Constant) and v.value is None):
                     return False
                 if isinstance(v, ast.Call) and call_tail(v) == "get_write_uri":
@@ -475,8 +477,13 @@ def run(ctx: Context):
         cfg = fn.cfg()
         fnorm = FlowNorm(fn)
         cred = first_positional_params(fn)[0]
-        grants = lambda n: is_return(n) and n.ast.value is not None and not any(
-            call_tail(c) in ("fail", "Failure", "UnauthorizedLogin") for c in node_calls(n))
+
+        def grants(n):
+            if not is_return(n) or n.ast.value is None:
+                return False
+            v = fnorm.resolve(n, n.ast.value)      # `rv = fail(..); return rv` is still a refusal
+            return not any(isinstance(x, ast.Call) and call_tail(x) in ("fail", "Failure", "UnauthorizedLogin")
+                           for x in ast.walk(v))
         if not cfg.find(grants):
             raise AnchorVanished("requestAvatarId grants nothing")
 
@@ -511,7 +518,8 @@ def run(ctx: Context):
         r.site(tsc_r, rets[0].ast if rets else None, "salted-hash comparison")
         for n in rets:
             ok = False
-            for x in own_nodes(n.ast.value) if n.ast.value is not None else []:
+            rv = tn.resolve(n, n.ast.value) if n.ast.value is not None else None
+            for x in own_nodes(rv) if rv is not None else []:
                 if isinstance(x, ast.Compare) and len(x.ops) == 1 and isinstance(x.ops[0], ast.Eq):
                     l, rr = x.left, x.comparators[0]
                     ls, rs = tn.norm(n, l), tn.norm(n, rr)
@@ -522,7 +530,7 @@ def run(ctx: Context):
                             and {m1.group(3), m2.group(3)} == set(ps[:2]):
                         kd = all_defs(tsc_r).get(m1.group(2), [])
                         ok = len(kd) == 1 and isinstance(kd[0], ast.Call) and call_tail(kd[0]) == "urandom"
-            for x in own_nodes(n.ast.value) if n.ast.value is not None else []:
+            for x in own_nodes(rv) if rv is not None else []:
                 if isinstance(x, ast.Compare):
                     for side in [x.left] + list(x.comparators):
                         if isinstance(side, ast.Name) and side.id in ps:
